@@ -12,12 +12,15 @@ PROP = dict(
             5: ("community-pool-not-credited-remainder", "monitor"),
             6: ("skipped-epochs-not-counted-per-daily-epoch", "monitor"),
             9: ("hook-panics-differ-from-spec", "monitor"),
-            # schedule part (property C13) and bookkeeping
-            7: ("period-differs", "mismatch"),
-            8: ("stored-provision-differs", "mismatch"),
+            # schedule part: belongs to property C13 (which shares the suite).  The checker continues every step from the
+            # implementation's observed state (period, stored provision), so a difference here cannot cascade into the
+            # ledger part; it is C13's to report and is ignored here (a change of the decay formula does not break C05)
+            7: ("period-differs", "ignore"),
+            8: ("stored-provision-differs", "ignore"),
+            15: ("bonded-ratio-differs-from-truncated-quotient", "ignore"),
+            14: ("genesis-provision-differs", "ignore"),
+            # bookkeeping
             10: ("params-or-static-state-differ", "mismatch"),
-            15: ("bonded-ratio-differs-from-truncated-quotient", "mismatch"),
-            14: ("genesis-provision-differs", "mismatch"),
         }
     },
     level="proof",
